@@ -457,3 +457,54 @@ package board
 //@   trusted the start position is a parsed constant; its material passes the piece-count gate (TestFENConversion covers it)
 //@   ensures result != nil && !body(result.InvalidPieceCount())
 //@   modifies nothing
+//@
+//@ # ---- C09: the direct stalemate test.  Soundness: if it answers true, an arbitrary move gm is not legal.
+//@ define gmv() = uint16(gm)
+//@ define gmFrom() = Square((gm >> 6) & 63)
+//@ define epNormalised(p) = epNormal(p)
+//@
+//@ define notA() = BitBoard(0xfefefefefefefefe)
+//@ define notH() = BitBoard(0x7f7f7f7f7f7f7f7f)
+//@ define wcSet(pawns, opp) = (((pawns & notA()) << 7) | ((pawns & notH()) << 9)) & opp
+//@ define wcTo(pawns, opp) = wcSet(pawns, opp).LowestSet()
+//@ define wcFrom(pawns, opp) = ite(bit((pawns & notA()) << 7, wcTo(pawns, opp)), wcTo(pawns, opp) - 7, wcTo(pawns, opp) - 9)
+//@ define bcSet(pawns, opp) = (((pawns & notH()) >> 7) | ((pawns & notA()) >> 9)) & opp
+//@ define bcTo(pawns, opp) = bcSet(pawns, opp).LowestSet()
+//@ define bcFrom(pawns, opp) = ite(bit((pawns & notH()) >> 7, bcTo(pawns, opp)), bcTo(pawns, opp) + 7, bcTo(pawns, opp) + 9)
+//@
+//@ # the first occupied square on the ray from s away from k (the pinner, when s is pinned to k)
+//@ define beyond(k, s, occ) = (walkDir(uint8(s), occ, sgn8(fileOf(uint8(k)), fileOf(uint8(s))), sgn8(rankOf(uint8(k)), rankOf(uint8(s)))) & occ).LowestSet()
+//@
+//@ lemma castleNeedsStep(p $Pos, m $Mv)
+//@   props C09
+//@   hyp validPos(p) && isCastle(p, m) && legal(p, m)
+//@   concl legal(p, mkMv(mvFrom(m), midSq(m)))
+//@
+//@ func (*Board).IsStalemate
+//@   props C09
+//@   use castleNeedsStep(pos(b), gmv()) at exit
+//@   requires repOK(b) && validPos(pos(b)) && !inCheck(pos(b), uint8(b.STM)) && epNormalised(pos(b))
+//@   ensures [sound] implies(result, !legal(pos(b), gmv()))
+//@   modifies nothing
+//@   nopanic
+//@   timeout 300
+//@   # completeness: every `return false` names a legal move (witness)
+//@   at-return 1 requires [witness1*] legal(pos(b), witMove(pos(b), uint8((((pawns << 8) &^ occ) >> 8).LowestSet()), uint8((((pawns << 8) &^ occ) >> 8).LowestSet() + 8)))
+//@   at-return 2 requires [witness2*] legal(pos(b), witMove(pos(b), uint8(wcFrom(pawns, opp)), uint8(wcTo(pawns, opp))))
+//@   at-return 3 requires [witness3*] legal(pos(b), witMove(pos(b), uint8((((pawns >> 8) &^ occ) << 8).LowestSet()), uint8((((pawns >> 8) &^ occ) << 8).LowestSet() - 8)))
+//@   at-return 4 requires [witness4*] legal(pos(b), witMove(pos(b), uint8(bcFrom(pawns, opp)), uint8(bcTo(pawns, opp))))
+//@   at-return 5 requires [witness5*] legal(pos(b), mkMv(uint8(sq), uint8(((bishopWalk(uint8(sq), occ) | rookWalk(uint8(sq), occ)) &^ me).LowestSet()))) || legal(pos(b), mkMv(uint8(sq), uint8(beyond(kingSq, sq, occ))))
+//@   at-return 6 requires [witness6*] legal(pos(b), mkMv(uint8(sq), uint8((bishopWalk(uint8(sq), nocc) &^ me).LowestSet()))) || legal(pos(b), mkMv(uint8(sq), uint8(beyond(kingSq, sq, occ))))
+//@   at-return 7 requires [witness7*] legal(pos(b), mkMv(uint8(sq), uint8((rookWalk(uint8(sq), nocc) &^ me).LowestSet()))) || legal(pos(b), mkMv(uint8(sq), uint8(beyond(kingSq, sq, occ))))
+//@   at-return 8 requires [witness8*] legal(pos(b), mkMv(uint8(sq), uint8((knightSet(sqbit(uint8(sq))) &^ me).LowestSet())))
+//@   at-return 9 requires [witness9*] legal(pos(b), mkMv(uint8(kingSq), uint8(kMove.LowestSet())))
+//@   at-return 10 requires [witness10*] legal(pos(b), witMove(pos(b), uint8(piece.LowestSet()), uint8(targets.LowestSet())))
+//@   at-return 11 requires [witness11*] legal(pos(b), witMove(pos(b), uint8(piece.LowestSet()), uint8(targets.LowestSet()))) || legal(pos(b), witMove(pos(b), uint8(piece.LowestSet()), uint8((targets & (targets - 1)).LowestSet())))
+//@   at-return 12 requires [witness12*] legal(pos(b), mkMv(uint8(pawn.LowestSet()), uint8(b.EnPassant)))
+//@   loop 1: invariant pieces & ^pre(pieces) == 0 && implies(bit(pre(pieces) &^ pieces, gmFrom()), !legal(pos(b), gmv()))
+//@   loop 2: invariant pieces & ^pre(pieces) == 0 && implies(bit(pre(pieces) &^ pieces, gmFrom()), !legal(pos(b), gmv()))
+//@   loop 3: invariant pieces & ^pre(pieces) == 0 && implies(bit(pre(pieces) &^ pieces, gmFrom()), !legal(pos(b), gmv()))
+//@   loop 4: invariant pieces & ^pre(pieces) == 0 && implies(bit(pre(pieces) &^ pieces, gmFrom()), !legal(pos(b), gmv()))
+//@   loop 5: invariant kMoves & ^pre(kMoves) == 0 && implies(bit(b.Pieces[6] & b.Colors[b.STM], gmFrom()) && bit(pre(kMoves) &^ kMoves, Square(gm & 63)), !legal(pos(b), gmv())) && implies(bit(b.Pieces[6] & b.Colors[b.STM], gmFrom()) && bit(pre(kMoves) &^ kMoves, Square(midSq(gmv()))), !legal(pos(b), mkMv(mvFrom(gmv()), midSq(gmv()))))
+//@   loop 6: invariant pawns & ^pre(pawns) == 0 && implies(bit(pre(pawns) &^ pawns, gmFrom()) && !(b.EnPassant != 0 && Square(gm & 63) == b.EnPassant), !legal(pos(b), gmv()))
+//@   loop 7: invariant pawns & ^pre(pawns) == 0 && implies(bit(pre(pawns) &^ pawns, gmFrom()) && Square(gm & 63) == b.EnPassant, !legal(pos(b), gmv()))
